@@ -379,7 +379,9 @@ impl Interval {
         if self.has_nan() || rhs.has_nan() {
             (f32::NAN.into(), Choice::Both)
         } else if self.lower == 0.0 && self.upper == 0.0 {
-            (0.0.into(), Choice::Left)
+            // Return the operand itself (not a literal +0.0), like the point
+            // evaluator and the simplified tape do
+            (self, Choice::Left)
         } else if !self.contains(0.0) {
             (rhs, Choice::Right)
         } else {
